@@ -161,7 +161,40 @@ class Sim:
         self.put(dst, self.get(src))
 
     # -- operations: return the expected observation text (without root dumps) and the list of refs whose root is dumped
+    def precheck(self, o):
+        """every reference the operation needs must resolve before anything is changed (otherwise the executor and the
+        model skip the operation: `bad`); raises KeyError"""
+        name = o[0]
+        if name in ("new", "bld", "pnew"):
+            if self.root(o[1]) is not None or o[1][2]:
+                raise KeyError(o[1])
+            if (name == "pnew") != (o[1][0] == "p"):
+                raise KeyError(o[1])
+            return
+        if name in ("free", "pfree"):
+            if self.root(o[1]) is None or o[1][2] or (name == "pfree") != (o[1][0] == "p"):
+                raise KeyError(o[1])
+            return
+        if name == "cln":
+            self.get(o[1])
+            if not (self.root(o[2]) is None and not o[2][2] and o[2][0] == "s"):
+                self.get(o[2])
+            return
+        if name[0] == "p":                       # packet operations address a packet slot
+            if o[1][0] != "p" or o[1][2] or self.root(o[1]) is None:
+                raise KeyError(o[1])
+        else:
+            if o[1][0] == "p" and not o[1][2]:
+                raise KeyError(o[1])             # a packet is not a value object
+            self.get(o[1])
+        if name in ("lset", "lins", "tset", "pset") and o[3] is not None:
+            self.get(o[3])
+        if name in ("lrem", "trem", "prem") and o[3] is not None:
+            if o[3][0] != "s" or o[3][2] or self.root(o[3]) is not None:
+                raise KeyError(o[3])
+
     def op(self, o):
+        self.precheck(o)
         name = o[0]
         if name == "new":
             ref, kind = o[1], o[2]
